@@ -292,6 +292,12 @@ pub fn run(args: &Args) -> Report {
                             return;
                         }
                     }
+                    // automata derived from a noncontiguous NFA (with and without a prefilter) by
+                    // builders whose own options differ from the NFA's
+                    let r = catch_unwind(AssertUnwindSafe(|| check_derived(&rep, pats, kind, ci)));
+                    if r.is_err() {
+                        fail(&rep, "transitions and accessors never panic", &cfg_set("nc", kind, ci, false)[0], pats, "panic in an automaton derived by build_from_noncontiguous".into());
+                    }
                 }
             }
         });
@@ -400,8 +406,23 @@ pub fn bisim_one(rep: &Report, pats: &[Vec<u8>], kind: Kind, ci: bool, thorough:
                 ("dfa::Builder(start_kind Both, no byte classes).build_from_noncontiguous", aho_corasick::dfa::Builder::new().start_kind(aho_corasick::StartKind::Both).byte_classes(false).build_from_noncontiguous(nnfa).map(Built::D).map_err(|e| e.to_string())),
                 ("contiguous::Builder::new().build_from_noncontiguous", aho_corasick::nfa::contiguous::Builder::new().build_from_noncontiguous(nnfa).map(Built::C).map_err(|e| e.to_string())),
             ];
+            // ... also from an NFA that carries a prefilter, by builders whose build()-only options
+            // (prefilter, match kind, case folding) are set: they have no say in a derived automaton
+            let mut derived = derived;
+            let mut with_pre = aho_corasick::nfa::noncontiguous::Builder::new();
+            with_pre.match_kind(crate::eng::mk_real(kind)).ascii_case_insensitive(ci).prefilter(true);
+            let nn2 = with_pre.build(pats).ok();
+            if let Some(nn2) = &nn2 {
+                derived.push(("contiguous::Builder(prefilter false, match kind LeftmostFirst, ci).build_from_noncontiguous(NFA with prefilter)", aho_corasick::nfa::contiguous::Builder::new().prefilter(false).match_kind(aho_corasick::MatchKind::LeftmostFirst).ascii_case_insensitive(true).build_from_noncontiguous(nn2).map(Built::C).map_err(|e| e.to_string())));
+                derived.push(("dfa::Builder(prefilter false, match kind LeftmostLongest).build_from_noncontiguous(NFA with prefilter)", aho_corasick::dfa::Builder::new().prefilter(false).match_kind(aho_corasick::MatchKind::LeftmostLongest).build_from_noncontiguous(nn2).map(Built::D).map_err(|e| e.to_string())));
+            }
             for (name, d) in derived {
                 if let Ok(bb) = d {
+                    // the derived automaton obeys the Automaton contract itself (special flags, ...)
+                    {
+                        let cfg2 = Cfg { engine: if matches!(bb, Built::D(_)) { crate::eng::Engine::LowDfa } else { crate::eng::Engine::LowContig }, sk: if name.contains("Both") { crate::eng::StartKindC::B } else if matches!(bb, Built::D(_)) { crate::eng::StartKindC::U } else { crate::eng::StartKindC::B }, pre: name.contains("with prefilter"), ..reference };
+                        with_low(&bb, &mut |b| check_ac(rep, &cfg2, pats, b));
+                    }
                     let cfg = Cfg { engine: if matches!(bb, Built::D(_)) { crate::eng::Engine::LowDfa } else { crate::eng::Engine::LowContig }, sk: if name.contains("Both") { crate::eng::StartKindC::B } else if matches!(bb, Built::D(_)) { crate::eng::StartKindC::U } else { crate::eng::StartKindC::B }, ..reference };
                     with_low(&ra, &mut |a| {
                         with_low(&bb, &mut |b| {
@@ -416,6 +437,36 @@ pub fn bisim_one(rep: &Report, pats: &[Vec<u8>], kind: Kind, ci: bool, thorough:
         }
     }
     let _ = Built::top;
+}
+
+/// `aut_wf` on automata made by `build_from_noncontiguous`: from an NFA without and with a
+/// prefilter, by builders with default options and with options that differ from the NFA's
+pub fn check_derived(rep: &Report, pats: &[Vec<u8>], kind: Kind, ci: bool) {
+    use aho_corasick::{dfa, nfa::contiguous, nfa::noncontiguous, MatchKind, StartKind};
+    let reference = cfg_set("nc", kind, ci, false)[0];
+    for pre in [false, true] {
+        let mut nb = noncontiguous::Builder::new();
+        nb.match_kind(crate::eng::mk_real(kind)).ascii_case_insensitive(ci).prefilter(pre);
+        let nn = match nb.build(pats) {
+            Ok(n) => n,
+            Err(_) => continue,
+        };
+        let other_mk = if kind == Kind::LF { MatchKind::LeftmostLongest } else { MatchKind::LeftmostFirst };
+        let derived: Vec<(crate::eng::StartKindC, Result<Built, String>)> = vec![
+            (crate::eng::StartKindC::B, contiguous::Builder::new().build_from_noncontiguous(&nn).map(Built::C).map_err(|e| e.to_string())),
+            (crate::eng::StartKindC::B, contiguous::Builder::new().prefilter(!pre).match_kind(other_mk).ascii_case_insensitive(!ci).build_from_noncontiguous(&nn).map(Built::C).map_err(|e| e.to_string())),
+            (crate::eng::StartKindC::B, contiguous::Builder::new().prefilter(false).dense_depth(0).byte_classes(false).build_from_noncontiguous(&nn).map(Built::C).map_err(|e| e.to_string())),
+            (crate::eng::StartKindC::U, dfa::Builder::new().build_from_noncontiguous(&nn).map(Built::D).map_err(|e| e.to_string())),
+            (crate::eng::StartKindC::B, dfa::Builder::new().prefilter(!pre).match_kind(other_mk).ascii_case_insensitive(!ci).start_kind(StartKind::Both).build_from_noncontiguous(&nn).map(Built::D).map_err(|e| e.to_string())),
+            (crate::eng::StartKindC::A, dfa::Builder::new().prefilter(false).start_kind(StartKind::Anchored).byte_classes(false).build_from_noncontiguous(&nn).map(Built::D).map_err(|e| e.to_string())),
+        ];
+        for (sk, d) in derived {
+            if let Ok(bb) = d {
+                let cfg = Cfg { engine: if matches!(bb, Built::D(_)) { crate::eng::Engine::LowDfa } else { crate::eng::Engine::LowContig }, sk, pre, ..reference };
+                with_low(&bb, &mut |b| check_ac(rep, &cfg, pats, b));
+            }
+        }
+    }
 }
 
 /// SC-std on long failure chains: patterns a, aa, ..., a^K (every pattern a suffix of the next).
